@@ -197,6 +197,9 @@ def _strategy(draw):
             alias in ('none', 'x1x2'):
         # layout of the separate out element
         desc['out'] = draw(vs.element_descs(sd, orders=orders, lo=0, hi=1))
+    if op in DIV_OPS and kind == 'real' and draw(st.integers(0, 3)) == 0:
+        # IEEE semantics: exact zeros in the divisor give inf / nan entries
+        desc['zero_div'] = True
     if op.endswith('_al'):
         # product spaces: the array-like is the list of component elements
         desc['alkind'] = ('parts' if sd['kind'] == 'pspace' else
@@ -215,6 +218,20 @@ def _strategy(draw):
             ['one', 'mone', 'generic']))))
     elif op in ('pow', 'ipow'):
         desc['n'] = draw(st.integers(-3, 5))
+    single = kind != 'int' and all(np.dtype(l['dtype']).itemsize ==
+                                   (8 if kind == 'cplx' else 4)
+                                   for l in leaves)
+    if (single and not large and
+            op in ('lincomb2', 'lincomb1', 'elem_lincomb', 'smul', 'rsmul',
+                   'ismul') and draw(st.integers(0, 5)) == 0):
+        # scalars beyond the range of the single-precision dtype with data
+        # small enough that every term is representable
+        desc['tiny_data'] = True
+        for key in ('a', 'b'):
+            if key in desc and draw(st.booleans()):
+                mant = float(np.float32(draw(st.floats(1.0, 9.0))))
+                sign = -1.0 if draw(st.booleans()) else 1.0
+                desc[key] = {'cls': 'huge', 'value': sign * mant * 1e39}
     if kind == 'int' and unsigned:
         # keep everything non-negative for unsigned spaces (no wrap-around
         # semantics are asserted)
@@ -261,6 +278,22 @@ def _nonzero(vals):
     return out
 
 
+def _with_zeros(vals):
+    """Deterministically plant exact (signed) zeros among the entries."""
+    out = []
+    for v in vals:
+        v = v.copy()
+        flat = v.reshape(-1)
+        flat[np.abs(flat) < 1e-2] = 0
+        if flat.size:
+            flat[0] = 0.0
+            flat[-1] = -0.0 if flat.size > 1 else 0.0
+        if flat.size > 4:
+            flat[flat.size // 2] = 0.0
+        out.append(v)
+    return out
+
+
 def _set_values(elem, vals):
     for arr, v in zip(build.leaf_arrays_of(elem), vals):
         arr[...] = v
@@ -290,10 +323,18 @@ def run_case(desc):
     else:
         x2 = make(desc['x2'])
 
-    # operand preconditions (division): replace zeros deterministically
+    if desc.get('tiny_data'):
+        for x in ([x1] if x2 is x1 else [x1, x2]):
+            _set_values(x, [v * v.dtype.type(1e-9) for v in _snapshot(x)])
+
+    # operand preconditions (division): replace zeros deterministically, or
+    # (zero_div) plant exact zeros on purpose
+    fix = _with_zeros if desc.get('zero_div') else _nonzero
     if op in ('div', 'idiv', 'divide', 'div_al', 'idiv_al'):
-        _set_values(x2, _nonzero(_snapshot(x2)))
-    if op in ('rsdiv', 'rdiv_al') or (op in ('pow', 'ipow') and desc['n'] < 0):
+        _set_values(x2, fix(_snapshot(x2)))
+    if op in ('rsdiv', 'rdiv_al'):
+        _set_values(x1, fix(_snapshot(x1)))
+    if op in ('pow', 'ipow') and desc['n'] < 0:
         _set_values(x1, _nonzero(_snapshot(x1)))
     if op in ('pow', 'ipow') and kind != 'int':
         # keep |x|**5 within float32 range
@@ -546,9 +587,25 @@ def run_case(desc):
         else:
             eps = np.finfo(dt).eps
             ld = np.clongdouble if dt.kind == 'c' else np.longdouble
-            err = np.abs(g.astype(ld) - r)
-            tol = k * eps * m + np.finfo(dt).tiny * 4
-            bad = ~(err <= tol)
+            nonfin = ~np.isfinite(r)
+            if np.any(nonfin):
+                # IEEE special values (division by exact zero): same NaN
+                # pattern, same signed infinities
+                gl = g.astype(ld)
+                same = (np.isnan(gl) == np.isnan(r))
+                inf = np.isinf(r)
+                same &= ~inf | (gl == r)
+                same &= nonfin | np.isfinite(gl)
+                if not np.all(same):
+                    idx = tuple(int(j) for j in np.argwhere(~same)[0])
+                    raise Violation(
+                        'C01|special-value|' + sig_tail + '|' + alias,
+                        'leaf {} entry {}: got {!r} ref {!r}'.format(
+                            i, idx, g[idx], r[idx]))
+            with np.errstate(all='ignore'):
+                err = np.abs(g.astype(ld) - r)
+                tol = k * eps * m + np.finfo(dt).tiny * 4
+            bad = ~(err <= tol) & ~nonfin
             if np.any(bad):
                 idx = tuple(int(j) for j in np.argwhere(bad)[0])
                 raise Violation(
@@ -593,6 +650,10 @@ def run_case(desc):
         strata.append('b:' + desc['b']['cls'])
     if stale_checked:
         strata.append('stale-out-checked')
+    if desc.get('zero_div'):
+        strata.append('zero-divisor')
+    if desc.get('tiny_data'):
+        strata.append('huge-scalar-single-precision')
     if noncontig:
         strata.append('noncontiguous')
     return Outcome('ok', strata=strata, nontrivial=nontriv)
@@ -609,6 +670,7 @@ def _regime(total):
                                         else 'large')
 
 
-REQUIRED_STRATA = ['regime:small', 'regime:medium', 'regime:large',
+REQUIRED_STRATA = ['zero-divisor', 'huge-scalar-single-precision',
+                   'regime:small', 'regime:medium', 'regime:large',
                    'kind:int', 'kind:cplx', 'alias:all', 'alias:outx2',
                    'stale-out-checked', 'space:pspace', 'space:discr']
